@@ -518,6 +518,15 @@ func (s *State) diffIOSACLs(al, bl []*cmd, diff []edit.Range) {
 				errlog.Abort("Can't insert more than 9999 ACL lines at once")
 			}
 			action0 := getIOSAction(bl[r.LowB])
+			// Check if lines with different action are inserted.
+			// These lines are inserted behind preceding lines of this
+			// range. Hence a preceding line must be moved, even inside
+			// its block, if it is currently located behind
+			// the insert position.
+			mixed := false
+			for _, b := range bl[r.LowB:r.HighB] {
+				mixed = mixed || action0 != getIOSAction(b)
+			}
 			moveOK := true
 			for i, b := range bl[r.LowB:r.HighB] {
 				moveOK = moveOK && action0 == getIOSAction(b)
@@ -526,7 +535,8 @@ func (s *State) diffIOSACLs(al, bl []*cmd, diff []edit.Range) {
 				// Can't move a line again, which already has been moved,
 				// if identical lines occur multiple times.
 				if cmdPos, found := delMap[p]; found && cmdPos.cmd != nil {
-					moveACL(cmdPos, b, r.LowA, i, moveOK)
+					ignoreOK := moveOK && (!mixed || cmdPos.pos < r.LowA)
+					moveACL(cmdPos, b, r.LowA, i, ignoreOK)
 				} else {
 					addACL(b, r.LowA, i)
 				}
